@@ -160,8 +160,10 @@ def prepare(prop: str, thorough: bool = False) -> ProofStatus:
                 st.extract = json.loads(r.stdout.strip().splitlines()[-1])
             except Exception:
                 st.extract = {"problems": [f"extract.py failed: {r.stderr[-2000:]}"]}
-            soft_p = [p for p in st.extract.get("problems") or [] if _soft_problem(p)]
-            st.extract["problems"] = [p for p in st.extract.get("problems") or [] if not _soft_problem(p)]
+            filled = st.extract.get("filled_ns") or []       # sections whose body-derived values had to be supplied from the pins
+            soft = lambda p: _soft_problem(p) or any(ns in p.lower() for ns in filled)  # noqa: E731
+            soft_p = [p for p in st.extract.get("problems") or [] if soft(p)]
+            st.extract["problems"] = [p for p in st.extract.get("problems") or [] if not soft(p)]
             drift += ["problem: " + p for p in soft_p]
         st.extract["drift_all"] = drift
         st.extract["drift"] = [d for d in drift if _problem_concerns(d.split(".")[0] if not d.startswith("problem: ") else d, prop)]
